@@ -868,3 +868,53 @@ Proof.
   apply (cfg_new_tree fuel (wst w) base st' root); auto.
   intros l nd X k r Hin. destruct (Sv _ _ X _ _ Hin). split; [assumption | reflexivity].
 Qed.
+
+(* ------------------------------------------------------------------ *)
+(* composition: an instance is a private snapshot of the base configuration at
+   its creation time, whatever happens afterwards to anything else *)
+Lemma wstep_insts_keep : forall fuel w o j r,
+  nth_error (winsts w) j = Some r -> nth_error (winsts (fst (wstep fuel w o))) j = Some r.
+Proof.
+  intros fuel [st users insts] o j r E. cbn [winsts] in E.
+  assert (Ap : forall x, nth_error (insts ++ [x]) j = Some r).
+  { intros x. rewrite nth_error_app1; [exact E | apply nth_error_Some; congruence]. }
+  destruct o as [|u path k v|u path k u2| |u|i m]; unfold wstep; cbn [wst wusers winsts].
+  - exact E.
+  - destruct (nth_error users u); [|exact E]. destruct (set_path st n path k (VAtom v)); exact E.
+  - destruct (nth_error users u); [|exact E]. destruct (nth_error users u2); [|exact E].
+    destruct (set_path st n path k (VRef n0)); exact E.
+  - destruct (nth_error users 0); [|exact E]. destruct (cfg_new fuel st n) as [[st' root]|e]; [apply Ap | exact E].
+  - destruct (nth_error users 0); [|exact E]. destruct (nth_error users u); [|exact E].
+    destruct (cfg_from_dict fuel st n n0) as [[st' root]|e]; [apply Ap | exact E].
+  - destruct (nth_error insts i); [|exact E]. destruct (cfg_apply st n m); exact E.
+Qed.
+
+Theorem config_snapshot : forall fuel ops1 ops2 w1,
+  let w := wrun fuel w0 ops1 in
+  wstep fuel w WNew = (w1, Ok tt) ->
+  let j := length (winsts w) in
+  (forall o, In o ops2 -> ~ targets_inst o j) ->
+  exists base root,
+    nth_error (wusers w) 0 = Some base
+    /\ nth_error (winsts (wrun fuel w1 ops2)) j = Some root
+    /\ forall f, tree_of f (wst (wrun fuel w1 ops2)) (VRef root) = tree_of f (wst w) (VRef base).
+Proof.
+  intros fuel ops1 ops2 w1 w E j NT.
+  destruct (new_config_is_base fuel ops1 w1 E) as (base & root & Eb & Ei & _ & T). fold w in Eb, Ei, T.
+  exists base, root. split; [exact Eb|].
+  assert (R0 : nth_error (winsts w1) j = Some root).
+  { rewrite Ei. unfold j. rewrite nth_error_app2, Nat.sub_diag by lia. reflexivity. }
+  assert (W1 : w1 = fst (wstep fuel w WNew)) by (rewrite E; reflexivity).
+  revert NT. induction ops2 as [|o t IH] using rev_ind; intros NT.
+  - cbn. split; [exact R0 | exact T].
+  - destruct (IH ltac:(intros o' I; apply NT; apply in_or_app; left; exact I)) as [R T'].
+    assert (Run : wrun fuel w1 (t ++ [o]) = fst (wstep fuel (wrun fuel w1 t) o)).
+    { unfold wrun. rewrite fold_left_app. reflexivity. }
+    assert (Pre : wrun fuel w1 t = wrun fuel w0 (ops1 ++ WNew :: t)).
+    { unfold wrun at 2. rewrite fold_left_app. cbn [fold_left]. fold (wrun fuel w0 ops1). fold w. rewrite <- W1. reflexivity. }
+    rewrite Run. split; [apply wstep_insts_keep; exact R|].
+    intros f. rewrite <- T'. rewrite Pre.
+    apply (proj1 (cfg_isolation fuel (ops1 ++ WNew :: t) o) j root).
+    + rewrite <- Pre. exact R.
+    + apply NT. apply in_or_app. right. left. reflexivity.
+Qed.
